@@ -249,6 +249,21 @@ type iface struct {
 	Any  interface{}
 	Anys []interface{}
 }
+
+// odd field names: a leading underscore or a caseless first letter makes a field unexported although
+// strings.Title leaves the locator segment as it is, so a locator can name it; underscores elsewhere are
+// what protoc-gen-go produces for fields like shard_1.
+type oddNames struct {
+	_ids    []string
+	_id     string
+	名前      string
+	名前たち    []string
+	Key_2   string
+	Shard_1 []string
+	X_      string
+	In_     *inner
+}
+
 type exoticT struct {
 	M    map[string]string
 	MP   map[string]*inner
@@ -276,6 +291,7 @@ func exotics() []interface{} {
 		exoticT{}, &exoticT{M: map[string]string{"a": "b"}, MP: map[string]*inner{"a": in}, PP: pin, Arr: [2]string{"a0", "a1"}, ArrP: [2]*inner{in, nil}, SS: [][]string{{"s0"}, nil}, B: []byte("bytes"), In: *in, PIn: in},
 		map[string]string{"key": "v"}, map[string]interface{}{"Key": "v"}, []string{"a"}, []*inner{in}, [1]inner{*in}, "plain string", 42, 3.5, true, nil, (*inner)(nil), (**inner)(nil), pin, &pin,
 		func() {}, make(chan int), errors.New("e"), struct{}{}, &struct{ Key *string }{},
+		&oddNames{_ids: []string{"u1", "u2"}, _id: "u0", 名前: "n", 名前たち: []string{"n1"}, Key_2: "k2", Shard_1: []string{"s1", "s2"}, X_: "x", In_: in}, oddNames{_ids: []string{"v"}}, &oddNames{},
 		&pb.ApiConfig{}, &pb.ApiConfig{ChannelPool: &pb.ChannelPoolConfig{MaxSize: 3}, Method: []*pb.MethodConfig{{Name: []string{"m1", "m2"}, Affinity: &pb.AffinityConfig{AffinityKey: "k"}}, nil, {Name: nil}}},
 		(*pb.ApiConfig)(nil), &hw.HelloRequest{Name: "n"}, &hw.HelloReply{}, hw.HelloRequest{Name: "byvalue"},
 		// two distinct types with the same printed name ("session.Session") and different layouts
@@ -286,7 +302,8 @@ func exotics() []interface{} {
 
 // ExoticLocators are tried against the exotic values.
 var ExoticLocators = []string{"key", "keys", "Key", "other", "inner.key", "inner", "any", "any.key", "anys", "anys.key", "m", "m.a", "mP.a.key", "pP.key", "pP", "arr", "arrP.key", "sS", "f", "c", "b", "u", "err", "in.key", "in.keys", "pIn.key", "pIn.keys",
-	"token", "items.key", "items.other", "items", "extra", "channelPool.maxSize", "channelPool", "method.name", "method.affinity.affinityKey", "method.affinity", "name", "message", "state", "sizeCache", "unknownFields", "", ".", "..", "key.", ".key", "key..x", "a.b.c.d.e.f", "kéy", "ключ", "key key", "KEY", "\x00", "key\n"}
+	"token", "items.key", "items.other", "items", "extra", "channelPool.maxSize", "channelPool", "method.name", "method.affinity.affinityKey", "method.affinity", "name", "message", "state", "sizeCache", "unknownFields", "", ".", "..", "key.", ".key", "key..x", "a.b.c.d.e.f", "kéy", "ключ", "key key", "KEY", "\x00", "key\n",
+	"_ids", "_id", "名前", "名前たち", "key_2", "shard_1", "x_", "in_.key", "in_.keys", "in_._", "_", "__", "key_", "_key", "in__key", "_.key", "key._"}
 
 // reachable collects every string reachable in v.
 func reachable(v reflect.Value, depth int, out map[string]bool) {
